@@ -10,7 +10,7 @@ CONSTANTS
   CoefVals = {0}
   Shifts = {0, 1}
   MaxBlocks = 2
-  CmdSet <- TinyCmds
+  CmdSet <- TinyCmdsNoBs
   MeanRule = "c99"
 SPECIFICATION Spec
 INVARIANT C13_DecodeOfEncodeIsIdentity
